@@ -52,6 +52,10 @@ class C18Bounded(Bounded):
                 ev += 1
                 nontriv += 1
                 pats = SigmaCIDRExpression(str(net)).expand()
+                for w in ("%", ".*"):          # another wildcard token: the same patterns with that token in place of the asterisk
+                    alt = SigmaCIDRExpression(str(net)).expand(w)
+                    if alt != [x[:-1] + w if x.endswith("*") else x for x in pats]:
+                        fail("v4-wildcard", f"IPv4 {net}: expand({w!r}) gives {alt[:4]}, expand() gives {pats[:4]} - not the same patterns with the other wildcard token", [str(net), w])
                 rngs = [v4_pattern_range(x) for x in pats]
                 if any(r is None for r in rngs):
                     fail("v4-malformed", f"{net}: malformed pattern in {pats}", str(net))
